@@ -139,8 +139,84 @@ impl Part for GateSessions {
     }
 }
 
+
+/// Sessions in which the application also calls `handshake()` (with an ISI of any version) and `write()` between reads:
+/// nothing the application sends may move the gate.
+#[derive(Clone, Debug)]
+pub struct AppSessionCase {
+    pub session: SessionCase,
+    pub app: Vec<(usize, AppOp)>,
+}
+
+pub struct GateWithAppCalls;
+impl Part for GateWithAppCalls {
+    type Case = AppSessionCase;
+    fn name(&self) -> &'static str {
+        "sessions-with-handshake-and-writes"
+    }
+    fn check(&self, c: &AppSessionCase, ev: &mut Local) -> Result<(), Fail> {
+        let s = &c.session;
+        let mode = s.mode();
+        let stream = s.stream();
+        let max_reads = boundaries(&stream, &mode).len() + s.steps.len() + 6;
+        let model = model_results(&mode, s.verify, &s.steps, true, max_reads);
+        let b = run_blocking_app(&mode, s.verify, s.steps.clone(), vec![], max_reads, &c.app);
+        let t = run_tokio_app(&mode, s.verify, s.steps.clone(), vec![], max_reads, &c.app);
+        for (which, r) in [("blocking", &b), ("tokio", &t)] {
+            if let Some(p) = &r.panic {
+                fail!("c09:panic", "{which} connection panicked: {p}");
+            }
+            if r.results != model {
+                let i = (0..r.results.len().max(model.len())).find(|i| r.results.get(*i) != model.get(*i)).unwrap_or(0);
+                let cut = |s: Option<&String>| s.map(|s| s.chars().take(110).collect::<String>()).unwrap_or("<nothing>".into());
+                let gate = model.get(i).map(|m| m.contains("IncompatibleVersion")).unwrap_or(false) || r.results.get(i).map(|m| m.contains("IncompatibleVersion")).unwrap_or(false);
+                fail!(
+                    if gate { "c09:application-calls-move-the-gate" } else { "c09:application-calls-change-what-reads-deliver" },
+                    "{which}, verification {}: after the application calls {:?} result #{i} is {} (the reference gate says {})",
+                    s.verify,
+                    c.app,
+                    cut(r.results.get(i)),
+                    cut(model.get(i))
+                );
+            }
+        }
+        let vers = model.iter().filter(|r| r.starts_with("Ok(Ver(") || r.contains("IncompatibleVersion")).count();
+        if vers > 0 && !c.app.is_empty() {
+            ev.nontrivial(&format!("{:?}{}", c.app, session_json(s)));
+            ev.class(if s.verify { "verify-on-with-ver" } else { "verify-off-with-ver" });
+        }
+        if c.app.iter().any(|(_, o)| matches!(o, AppOp::Handshake(v) if *v != 9)) {
+            ev.class("handshake-with-another-isi-version");
+        }
+        Ok(())
+    }
+    fn to_json(&self, c: &AppSessionCase) -> Value {
+        let app: Vec<Value> = c
+            .app
+            .iter()
+            .map(|(k, o)| match o {
+                AppOp::Handshake(v) => json!({"before_read": k, "handshake_isi_version": v}),
+                AppOp::Write(f) => json!({"before_read": k, "write": hex(f)}),
+            })
+            .collect();
+        json!({"session": session_json(&c.session), "app": app})
+    }
+    fn from_json(&self, v: &Value) -> Option<AppSessionCase> {
+        let mut app = vec![];
+        for o in v.get("app")?.as_array()? {
+            let k = o.get("before_read")?.as_u64()? as usize;
+            if let Some(h) = o.get("handshake_isi_version") {
+                app.push((k, AppOp::Handshake(h.as_u64()? as u8)));
+            } else {
+                app.push((k, AppOp::Write(unhex(o.get("write")?.as_str()?)?)));
+            }
+        }
+        Some(AppSessionCase { session: session_from(v.get("session")?)?, app })
+    }
+}
+
 pub fn parts() -> Vec<Box<dyn DynPart>> {
-    vec![Box::new(AllVersions), Box::new(OtherKinds), Box::new(GateSessions)]
+    vec![Box::new(AllVersions), Box::new(OtherKinds), Box::new(GateSessions), Box::new(GateWithAppCalls)]
 }
 
 pub fn run(run: &mut Run) {
@@ -149,7 +225,8 @@ pub fn run(run: &mut Run) {
     run.rule = "Complete: 256 InSim versions x {verification on, off} x {first, middle, last of a 3-packet history} x 2 size modes x 2 \
         segmentations, blocking and tokio: delivered iff verification is off or the version is 9, otherwise IncompatibleVersion carrying \
         the value, neighbours untouched. Random frames of every non-version kind must give identical results with the gate on and off. \
-        Generated sessions mixing VER packets with all other kinds are compared with the reference model. Non-trivial = the history \
+        Generated sessions mixing VER packets with all other kinds are compared with the reference model, also while the application \
+        calls handshake() (ISI of any version) and write() between reads. Non-trivial = the history \
         contains a version packet (all enumerated cases)."
         .into();
     run.assumptions = vec!["the reference gate: a VER packet with InSim version != 9 is rejected when verification is enabled, nothing else ever is".into()];
@@ -169,4 +246,23 @@ pub fn run(run: &mut Run) {
     run.prop(&OtherKinds, (any::<usize>(), any::<bool>(), proptest::collection::vec(any::<u8>(), 0..200)), n);
     let n = run.budget(20_000, 1_000_000);
     run.prop(&GateSessions, session_strategy(10, 1, 6, true, None), n);
+    // histories in which the application also sends: handshake() with an ISI of any version, write() of version requests / ISIs
+    let app_op = prop_oneof![
+        3 => prop_oneof![Just(9u8), 0u8..12, any::<u8>()].prop_map(AppOp::Handshake),
+        2 => any::<bool>().prop_map(|_| AppOp::Write(vec![])),
+    ];
+    let strat = (session_strategy(8, 1, 6, false, None), proptest::collection::vec((0usize..6, app_op), 0..4)).prop_map(|(session, app)| {
+        let mode = session.mode();
+        let app = app
+            .into_iter()
+            .map(|(k, o)| match o {
+                // TINY_VER request (the call that makes LFS send a version packet)
+                AppOp::Write(_) => (k, AppOp::Write(frame_bytes(&FrameSpec::Tiny(1, 1), &mode))),
+                h => (k, h),
+            })
+            .collect();
+        AppSessionCase { session, app }
+    });
+    let n = run.budget(20_000, 1_000_000);
+    run.prop(&GateWithAppCalls, strat, n);
 }
